@@ -14,10 +14,12 @@
   (`loadJson_false_any`), or it is and two variables are declared (`loadJson_false_any_dyn`: the
   loader's `bdd.var` / `bdd.ite` calls may sift while it holds its shelf; with fewer than two
   variables a request would make sifting raise — no theorem for the loader there).
-  `.copyVars src names`: the documented obligations of `copy_vars` — the source order is a
-  bijection, `names` is a permutation of its variables (else the model reports a schedule
-  mismatch), the target declares nothing that disagrees with the source (else levels collide and
-  a gap may stay, F7) — as decidable checks.
+  `.copyVars src names`: the source order is a bijection, `names` is a permutation of its variables
+  (else the model reports a schedule mismatch), and what the target declares BELOW the source's
+  number of variables agrees with the source (`varsBelowB`) — as decidable checks.  This is the
+  weakest compatibility that excludes a gap: a refused `copy_vars` keeps the invariant, the
+  nodes and the counts (`copyVarsCore_any`, no hypothesis) but may leave a level unnamed
+  (`copyVars_refused_gap`, F7), and then the order is no bijection any more.
 
   NOT covered, and why.  `load_json(load_order=True)` is not an operation of `UOp5` (it changes the
   switch both ways and the order; its per-operation theorem for ANY content is
@@ -85,10 +87,31 @@ theorem varsSub_of_check {src t : Tbl} (h : varsSubB src t = true) :
   simp only [List.all_eq_true, beq_iff_eq] at h
   exact fun v i hv => h (v, i) (TreeMap.mem_toList_iff_getElem?_eq_some.mpr hv)
 
+/-- the WEAKEST compatibility under which `copy_vars` cannot leave a gap: what the target declares
+at a level BELOW the source's number of variables is what the source has there (variables of the
+target at higher levels do not matter: the call then finds every source variable declared) -/
+def varsBelowB (src t : Tbl) : Bool :=
+  t.vars.toList.all (fun p => decide (src.vars.size ≤ p.2) || src.vars[p.1]? == some p.2)
+
+theorem varsBelow_of_check {src t : Tbl} (h : varsBelowB src t = true) :
+    ∀ (v : String) (i : Nat), t.vars[v]? = some i → i < src.nvars → src.vars[v]? = some i := by
+  unfold varsBelowB at h
+  simp only [List.all_eq_true, Bool.or_eq_true, decide_eq_true_eq, beq_iff_eq] at h
+  intro v i hv hi
+  rcases h (v, i) (TreeMap.mem_toList_iff_getElem?_eq_some.mpr hv) with h1 | h1
+  · exact absurd h1 (by show ¬ src.vars.size ≤ i; exact Nat.not_le.mpr hi)
+  · exact h1
+
+theorem varsBelowB_of_sub {src t : Tbl} (h : varsSubB src t = true) : varsBelowB src t = true := by
+  unfold varsSubB at h
+  unfold varsBelowB
+  simp only [List.all_eq_true, beq_iff_eq, Bool.or_eq_true, decide_eq_true_eq] at h ⊢
+  exact fun p hp => Or.inr (h p hp)
+
 def OpGuard5 (m : Mgr) (ext : Nat → Nat) : UOp5 → Prop
   | .op o => OpGuard4 m ext o
   | .loadJson _ => m.lastLen = none ∨ 2 ≤ m.nvars
-  | .copyVars src names => orderOKB src = true ∧ names.Perm src.vars.keys ∧ varsSubB src m.tbl = true
+  | .copyVars src names => orderOKB src = true ∧ names.Perm src.vars.keys ∧ varsBelowB src m.tbl = true
 
 instance (m : Mgr) (ext : Nat → Nat) (op : UOp5) : Decidable (OpGuard5 m ext op) := by
   cases op <;> simp only [OpGuard5] <;> infer_instance
@@ -224,6 +247,147 @@ theorem copyVars_step5 (m : Mgr) (ext : Nat → Nat) (h : Good3 m ext) (src : Tb
   have hmu := h.exact.mem_of_ext_pos hu
   exact ⟨kv.mem hmu, fun σ => denN_of_keptV h.inv h.order hO' kv u hmu σ⟩
 
+theorem bindErr_cv {α β : Type} {x : M α} {f : α → M β} {m m' : Mgr} {e : Err}
+    (h : x m = (.error e, m')) : M.bind' x f m = (.error e, m') := by
+  unfold M.bind'; simp only [h]
+
+theorem forIn_fix {α : Type} (f : α → PUnit → M (ForInStep PUnit)) (m : Mgr) :
+    ∀ (l : List α), (∀ a ∈ l, f a PUnit.unit m = (.ok (.yield PUnit.unit), m)) →
+      (forIn l PUnit.unit f : M PUnit) m = (.ok PUnit.unit, m) := by
+  intro l
+  induction l with
+  | nil => intro _; rfl
+  | cons a rest ih =>
+    intro h
+    rw [List.forIn_cons]
+    show M.bind' (f a PUnit.unit) _ m = _
+    rw [bindOk_cv (h a List.mem_cons_self)]
+    exact ih (fun b hb => h b (List.mem_cons_of_mem _ hb))
+
+/-- `copy_vars(other, bdd)` under the WEAKEST compatibility (`varsBelowB`): returns normally; every
+source variable is then declared at its source level, the target's other declarations stay; the
+manager is good for the same ledger; every node keeps its function by name -/
+theorem copyVars_step5w (m : Mgr) (ext : Nat → Nat) (h : Good3 m ext) (src : Tbl) (names : List String)
+    (hO : OrderOK src) (hperm : names.Perm src.vars.keys)
+    (hbelow : ∀ (v : String) (i : Nat), m.tbl.vars[v]? = some i → i < src.nvars → src.vars[v]? = some i) :
+    ∃ m', copyVarsCore src names m = (.ok (), m') ∧ Good3 m' ext ∧ Held2 ext m m' ∧
+      m'.lastLen = m.lastLen ∧
+      (∀ (v : String) (l : Nat), src.vars[v]? = some l → m'.tbl.vars[v]? = some l) ∧
+      (∀ (v : String) (i : Nat), m.tbl.vars[v]? = some i → m'.tbl.vars[v]? = some i) := by
+  by_cases hn : m.tbl.nvars ≤ src.nvars
+  · -- the target is (compatible with) a prefix of the source: C11
+    have hsub : ∀ (v : String) (i : Nat), m.tbl.vars[v]? = some i → src.vars[v]? = some i :=
+      fun v i hv => hbelow v i hv (Nat.lt_of_lt_of_le (h.order.lt v i hv) hn)
+    obtain ⟨m', hrun, hg, hh, hl, hv⟩ := copyVars_step5 m ext h src names hO hperm hsub
+    exact ⟨m', hrun, hg, hh, hl, fun v l hs => by rw [hv v]; exact hs,
+      fun v i hm => by rw [hv v]; exact hsub v i hm⟩
+  · -- the target has at least the source's levels: every source variable is declared already
+    have hall : ∀ (v : String) (l : Nat), src.vars[v]? = some l → m.tbl.vars[v]? = some l := by
+      intro v l hs
+      have hl : l < m.tbl.nvars := Nat.lt_of_lt_of_le (hO.lt v l hs) (by omega)
+      obtain ⟨w, hw⟩ := h.order.total l hl
+      have hw' : m.tbl.vars[w]? = some l := (h.order.inv w l).mpr hw
+      have hsw := hbelow w l hw' (hO.lt v l hs)
+      have e1 := (hO.inv w l).mp hsw
+      have e2 := (hO.inv v l).mp hs
+      rw [e1] at e2
+      rw [← Option.some.inj e2]; exact hw'
+    have hrun : copyVarsCore src names m = (.ok (), m) := by
+      have hin : ∀ v ∈ names, v ∈ src.vars := fun v hv => TreeMap.mem_keys.mp ((hperm.mem_iff).mp hv)
+      have hloop := forIn_fix
+        (fun v (_ : PUnit) => (copyVarStep src v).bind' fun _ => M.pure' (ForInStep.yield PUnit.unit)) m names
+        (by
+          intro v hv
+          obtain ⟨l, hl⟩ : ∃ l, src.vars[v]? = some l := by
+            have := hin v hv
+            rw [TreeMap.mem_iff_isSome_getElem?] at this
+            exact Option.isSome_iff_exists.mp this
+          have hstep : copyVarStep src v m = (.ok (), m) := by
+            unfold copyVarStep
+            simp only [hl]
+            rw [(addVar_existing m v l (hall v l hl)).2]
+          show M.bind' (copyVarStep src v) _ m = _
+          rw [bindOk_cv hstep]
+          rfl)
+      unfold copyVarsCore
+      have hguard : (!(names.length == src.vars.keys.length &&
+          names.all (src.vars.keys.contains ·))) = false := by
+        have h1 : names.length = src.vars.keys.length := hperm.length_eq
+        have h2 : names.all (src.vars.keys.contains ·) = true := by
+          rw [List.all_eq_true]
+          intro v hv
+          simpa using (hperm.mem_iff).mp hv
+        simp only [h1, beq_self_eq_true, Bool.true_and, h2, Bool.not_true]
+      simp only [bind, pure, hguard, Bool.false_eq_true, if_false]
+      show M.bind' _ _ m = _
+      rw [bindOk_cv hloop]
+      rfl
+    exact ⟨m, hrun, h, fun u hu => ⟨h.exact.mem_of_ext_pos hu, fun _ => rfl⟩, rfl, hall, fun _ _ hv => hv⟩
+
+/-- **`copy_vars`, EVERY outcome, NO hypothesis** (any source table, any order of visit, any
+target): whatever it returns or raises, the invariant holds, every node is there with its function
+of the LEVELS, the counts are exact for the ledger they were exact for, declared variables keep
+their level, the switches are untouched.  What a refusal can break is the order only: the
+variables declared before the offending one stay declared (`copyVars_refused_gap`). -/
+theorem copyVarsCore_any (src : Tbl) (names : List String) (m : Mgr) (hI : Inv m) :
+    KeptV m (copyVarsCore src names m).2 ∧
+    ∀ ext, RefExact m ext → RefExact (copyVarsCore src names m).2 ext := by
+  have hstep : ∀ (v : String) (m0 : Mgr), Inv m0 →
+      KeptV m0 (copyVarStep src v m0).2 ∧ ∀ ext, RefExact m0 ext → RefExact (copyVarStep src v m0).2 ext := by
+    intro v m0 hI0
+    cases hv : src.vars[v]? with
+    | none => simp only [copyVarStep, hv]; exact ⟨KeptV.refl hI0, fun _ h => h⟩
+    | some l =>
+      simp only [copyVarStep, hv]
+      have k := addVar_keptV m0 hI0 v (some (l : Int))
+      have r := addVar_refs_any m0 v (some (l : Int))
+      cases ha : addVar v (some (l : Int)) m0 with
+      | mk x m1 =>
+        rw [ha] at k r
+        cases x <;> exact ⟨k, r⟩
+  have hloop : ∀ (l : List String) (m0 : Mgr), Inv m0 →
+      KeptV m0 ((forIn l PUnit.unit fun (v : String) (_ : PUnit) =>
+        (copyVarStep src v).bind' fun _ => M.pure' (ForInStep.yield PUnit.unit)) m0).2 ∧
+      ∀ ext, RefExact m0 ext → RefExact ((forIn l PUnit.unit fun (v : String) (_ : PUnit) =>
+        (copyVarStep src v).bind' fun _ => M.pure' (ForInStep.yield PUnit.unit)) m0).2 ext := by
+    intro l
+    induction l with
+    | nil => intro m0 hI0; exact ⟨KeptV.refl hI0, fun _ h => h⟩
+    | cons v rest ih =>
+      intro m0 hI0
+      rw [List.forIn_cons]
+      obtain ⟨k1, r1⟩ := hstep v m0 hI0
+      show KeptV m0 (M.bind' (M.bind' (copyVarStep src v) _) _ m0).2 ∧
+        ∀ ext, RefExact m0 ext → RefExact (M.bind' (M.bind' (copyVarStep src v) _) _ m0).2 ext
+      cases hs : copyVarStep src v m0 with
+      | mk x m1 =>
+        rw [hs] at k1 r1
+        cases x with
+        | error e =>
+          rw [bindErr_cv (bindErr_cv hs)]
+          exact ⟨k1, r1⟩
+        | ok _ =>
+          rw [bindOk_cv (x := M.bind' (copyVarStep src v) _) (a := ForInStep.yield PUnit.unit) (m' := m1)
+            (by rw [bindOk_cv hs]; rfl)]
+          obtain ⟨k2, r2⟩ := ih m1 k1.inv
+          exact ⟨k1.trans k2, fun ext hx => r2 ext (r1 ext hx)⟩
+  unfold copyVarsCore
+  simp only [bind, pure]
+  split
+  · exact ⟨KeptV.refl hI, fun _ h => h⟩
+  · obtain ⟨k, r⟩ := hloop names m hI
+    show KeptV m (M.bind' (forIn names PUnit.unit fun (v : String) (_ : PUnit) =>
+        (copyVarStep src v).bind' fun _ => M.pure' (ForInStep.yield PUnit.unit)) _ m).2 ∧
+      ∀ ext, RefExact m ext → RefExact (M.bind' (forIn names PUnit.unit fun (v : String) (_ : PUnit) =>
+        (copyVarStep src v).bind' fun _ => M.pure' (ForInStep.yield PUnit.unit)) _ m).2 ext
+    cases hs : (forIn names PUnit.unit fun (v : String) (_ : PUnit) =>
+        (copyVarStep src v).bind' fun _ => M.pure' (ForInStep.yield PUnit.unit)) m with
+    | mk x m1 =>
+      rw [hs] at k r
+      cases x with
+      | error e => rw [bindErr_cv hs]; exact ⟨k, r⟩
+      | ok _ => rw [bindOk_cv hs]; exact ⟨k, r⟩
+
 /-! ### one step -/
 
 theorem step5_all (m : Mgr) (ext : Nat → Nat) (op : UOp5) (h : Good3 m ext) (hg : OpGuard5 m ext op) :
@@ -241,8 +405,8 @@ theorem step5_all (m : Mgr) (ext : Nat → Nat) (op : UOp5) (h : Good3 m ext) (h
     · obtain ⟨a, b, c⟩ := loadJson_step5_dyn m ext h f h2
       exact ⟨a, b, fun _ => c⟩
   | copyVars src names =>
-    obtain ⟨m', hrun, a, b, c, -⟩ := copyVars_step5 m ext h src names (orderOK_of_check hg.1) hg.2.1
-      (varsSub_of_check hg.2.2)
+    obtain ⟨m', hrun, a, b, c, -⟩ := copyVars_step5w m ext h src names (orderOK_of_check hg.1) hg.2.1
+      (varsBelow_of_check hg.2.2)
     have h2 : (runOp5 (.copyVars src names) m).2 = m' := by
       show (copyVarsCore src names m).2 = m'
       rw [hrun]
@@ -268,8 +432,8 @@ theorem step5_noSignal (m : Mgr) (ext : Nat → Nat) (op : UOp5) (h : Good3 m ex
   | op o => exact step4_noSignal m ext o h hg
   | loadJson f => exact mapRes_noSignal _ _ (loadJson_noSignal5 m ext h f hg)
   | copyVars src names =>
-    obtain ⟨m', hrun, -⟩ := copyVars_step5 m ext h src names (orderOK_of_check hg.1) hg.2.1
-      (varsSub_of_check hg.2.2)
+    obtain ⟨m', hrun, -⟩ := copyVars_step5w m ext h src names (orderOK_of_check hg.1) hg.2.1
+      (varsBelow_of_check hg.2.2)
     show (mapRes _ (copyVarsCore src names m)).1 ≠ _
     rw [hrun]
     intro hh; cases hh
